@@ -27,7 +27,15 @@ LEVEL_TEXT = ("Lean 4 theorems, for all networks (any number of points and clust
               "document; what the parser establishes of it is proved (parameter guards, point ids, covariance shape). Adjustment clauses: "
               "theorems on the regenerated refine_approx_coordinates / refine_adjustment sites (the exported coordinates are those of "
               "the last linearisation = adjusted coordinates of the pass before; a converged run re-adjusts with zero iterations and "
-              "the same results, for every adjustment that is a function of the network); the adjustment itself explored end-to-end.")
+              "the same results, for every adjustment that is a function of the network). Round 9 (Props/C13Rerun.lean): the same with the "
+              "REAL models - the loop is RA.refineAdjustment over the regenerated tests of refine_adjustment (refine_obsdh_reductions, "
+              "TestLinearization over the regenerated visitor, refine_obsdh_reductions(adjusted)), the adjustment is "
+              "PE.projectEquations + netSolve: a run that stopped normally, re-started from its exported coordinates and its "
+              "observations without reductions, is after gama-local's first refine_obsdh_reductions in the state it stopped in, does "
+              "zero iterations and reports the same adjustment, for k rounds; (parse o export)^k = parse o export. "
+              "Props/C13Removed.lean: finding F29 characterised (the abs-term stage of the re-run reproduces the active flags iff "
+              "the test's verdict at the exported coordinates equals the one at the given coordinates; NEG witness = the corpus "
+              "reproducer's observation with C14's regenerated test over Q). The adjustment itself explored end-to-end.")
 LEVEL_NOTE = ("Numbers are abstract in Props/C13.lean: exact law on the representable numbers, or Codec.PrinterOn D (rd (fmt x) = q x, "
               "fmt (q x) = fmt x, sign symmetric, non-zero never printed as zero; the same for the <cov-mat> elements with their own "
               "printer fmtCov / quantisation qc; the two laws of the sexagesimal text on a domain D of angular values) with a "
@@ -56,7 +64,15 @@ ASSUMPTIONS = ["Codec.LawfulOn R / Codec.PrinterOn D q qc qd for the numbers wri
                "angular values of a document in degrees lie in the domain of gon2deg(., 0, 4): 0 <= g, g*0.9 < 2^31-1 (Net.AngIn; "
                "gama normalises observed angles to [0, 400) gon; outside, no sign is printed / int(gon*0.9) overflows)",
                "C13_readjustment_identical: the adjustment is a function of the network (what C01/C04/C05/C09 prove of its parts) and "
-               "the exported run had converged"]
+               "the exported run had converged",
+               "Props/C13Rerun.lean: exact codec (with a printer of finitely many digits the re-import starts from quantNet, a state "
+               "near the one the run stopped in; the margins of the stopping tests are not bounded against the quantisation: "
+               "oracle); Loader / Describes: how the parsed document becomes PD / OD (constructors, Acord2) and that export_xml "
+               "writes the state are hypotheses of the document-level theorem (tied by the doc and net streams); hred: an "
+               "observation no branch of refine_obsdh_reductions applies to carries reduction 0; the non-degenerate instance of "
+               "the peEnv theorem is over an abstract adjustment (C06's Ex), the peEnv instance is the empty network",
+               "Props/C13Removed.lean: the abs-term test is a function of PD and the observation (parameter `test`; the real one for "
+               "coordinate differences is C14's regenerated test on C05's right-hand side, used in the witness)"]
 
 _spec2 = importlib.util.spec_from_file_location("c13_nets", str(VERIF / "tools" / "gen" / "c13_nets.py"))
 N = importlib.util.module_from_spec(_spec2)
